@@ -436,9 +436,7 @@ def _dist_validate_args(parser, namespace):
             installed_dist.update(iflatten_instance(pkg.distfiles))
 
     # exclude distfiles for existing ebuilds or fetch restrictions
-    if namespace.exclude_fetch_restricted or (
-        namespace.exclude_exists and not namespace.restrict
-    ):
+    if namespace.exclude_fetch_restricted or namespace.exclude_exists:
         for pkg in repo:
             exists_dist.update(
                 iflatten_instance(getattr(pkg, "_raw_pkg", pkg).distfiles)
